@@ -145,6 +145,10 @@ func c07Gen(t *rapid.T) interface{} {
 	c.SWords, c.SLines = blk("suffix")
 	if lib.IntN(t, 0, 3, "numberedBlocks") == 0 {
 		c.PStyle = 1
+	} else if lib.IntN(t, 0, 3, "hyphenatedPrefixEnd") == 0 {
+		c.PStyle = 2
+		// X then starts with a notice line or a line whose second word looks like a list marker
+		c.X.Segs = append([]seg{{Kind: "raw", Raw: []byte(lib.PickStr(t, []string{"Copyright (c) 2020 Example Corp\n\n", "Copyright 2019 Foo Inc.\n", "zqsection 2. zqfoo zqbar\n", "2019-03-14\n"}, "xFirstLine"))}}, c.X.Segs...)
 	}
 	if c.PWords == 0 && c.SWords == 0 {
 		c.PWords, c.PLines = 7, 2
@@ -173,7 +177,14 @@ func c07Check(ci interface{}) lib.Outcome {
 			x = []byte(c07JoinLines(w[c.SynthDrop:]))
 		}
 	}
+	pw := c.PWords
 	p := []byte(oovBlock(cl, 300000, c.PWords, c.PLines))
+	if c.PStyle == 2 {
+		// the prefix ends in an unrelated word that is hyphenated over a line break, its remainder being the last
+		// word before X: whatever the tokenizer keeps in mind about that word must not reach into X
+		p = append(p, []byte("zqhyphena-\nzqted\n")...)
+		pw++
+	}
 	s := []byte(oovBlock(cl, 400000, c.SWords, c.SLines))
 	if c.PadBytes > 0 && c.PadBytes <= 1<<16 {
 		p = append(bytes.Repeat([]byte{' '}, c.PadBytes), p...)
@@ -213,22 +224,22 @@ func c07Check(ci interface{}) lib.Outcome {
 			return lib.Outcome{Skip: "x-ends-in-hyphen", Classes: classes}
 		}
 	}
-	if len(ids(cl, p)) != c.PWords || len(ids(cl, s)) != c.SWords {
+	if len(ids(cl, p)) != pw || len(ids(cl, s)) != c.SWords {
 		return lib.Outcome{Skip: "premise_failed", Classes: classes}
 	}
-	if len(tf) != c.PWords+len(tx)+c.SWords {
-		return lib.Outcome{Violation: fmt.Sprintf("threshold %v, X = %s: X has %d words on its own but %d words between a prefix of %d and a suffix of %d unrelated words", c.Thr, c.X.describe(), len(tx), len(tf)-c.PWords-c.SWords, c.PWords, c.SWords), Classes: classes}
+	if len(tf) != pw+len(tx)+c.SWords {
+		return lib.Outcome{Violation: fmt.Sprintf("threshold %v, X = %s: X has %d words on its own but %d words between a prefix of %d and a suffix of %d unrelated words", c.Thr, c.X.describe(), len(tx), len(tf)-pw-c.SWords, pw, c.SWords), Classes: classes}
 	}
 	for i, tk := range tf {
 		switch {
-		case i < c.PWords || i >= c.PWords+len(tx):
+		case i < pw || i >= pw+len(tx):
 			if tk.ID != unknownIndex {
 				return lib.Outcome{Violation: fmt.Sprintf("threshold %v, X = %s: word %d of the surrounding unrelated text became the known word %q", c.Thr, c.X.describe(), i, cl.dict.getWord(tk.ID)), Classes: classes}
 			}
 		default:
-			if tk.ID != tx[i-c.PWords].ID || tk.Line != tx[i-c.PWords].Line+dLine {
+			if tk.ID != tx[i-pw].ID || tk.Line != tx[i-pw].Line+dLine {
 				return lib.Outcome{Violation: fmt.Sprintf("threshold %v, X = %s: word %d of X is %q on line %d when X stands alone, but %q on line %d (expected line %d) behind a prefix of %d unrelated words on %d lines",
-					c.Thr, c.X.describe(), i-c.PWords, cl.dict.getWord(tx[i-c.PWords].ID), tx[i-c.PWords].Line, cl.dict.getWord(tk.ID), tk.Line, tx[i-c.PWords].Line+dLine, c.PWords, dLine), Classes: classes}
+					c.Thr, c.X.describe(), i-pw, cl.dict.getWord(tx[i-pw].ID), tx[i-pw].Line, cl.dict.getWord(tk.ID), tk.Line, tx[i-pw].Line+dLine, pw, dLine), Classes: classes}
 			}
 		}
 	}
@@ -246,11 +257,11 @@ func c07Check(ci interface{}) lib.Outcome {
 		cl.SetTraceConfiguration(nil)
 		classes = append(classes, "traced")
 	}
-	want := shift(canon(rx), c.PWords, dLine)
+	want := shift(canon(rx), pw, dLine)
 	got := canon(rf)
 	if !equalRecs(want, got) {
 		return lib.Outcome{Violation: fmt.Sprintf("threshold %v, X = %s (%d words), prefix %d words/%d lines, suffix %d words: Match(P+X+S) differs from Match(X) shifted by %d tokens / %d lines\nexpected:\n%sgot:\n%s",
-			c.Thr, c.X.describe(), len(tx), c.PWords, dLine, c.SWords, c.PWords, dLine, fmtRecs(want), fmtRecs(got)), Classes: classes}
+			c.Thr, c.X.describe(), len(tx), pw, dLine, c.SWords, pw, dLine, fmtRecs(want), fmtRecs(got)), Classes: classes}
 	}
 	if c.SWords == 0 && len(rx.Matches) > 0 && rf.TotalInputLines != rx.TotalInputLines+dLine {
 		return lib.Outcome{Violation: fmt.Sprintf("TotalInputLines %d, expected %d+%d", rf.TotalInputLines, rx.TotalInputLines, dLine), Classes: classes}
@@ -272,16 +283,19 @@ func c07Check(ci interface{}) lib.Outcome {
 	if len(lic) > 1 {
 		classes = append(classes, "multi-license")
 	}
-	if c.PWords > len(tx) {
+	if pw > len(tx) {
 		classes = append(classes, "prefix-longer-than-x")
 	}
 	if c.PStyle == 1 {
 		classes = append(classes, "numbered-list-blocks")
 	}
-	o := lib.Outcome{Classes: classes, Nontrivial: len(lic) > 0 && c.PWords > 0}
+	if c.PStyle == 2 {
+		classes = append(classes, "prefix-ends-in-hyphenated-word")
+	}
+	o := lib.Outcome{Classes: classes, Nontrivial: len(lic) > 0 && pw > 0}
 	if o.Nontrivial {
-		o.FP = fmt.Sprintf("%v|%s|%d|%d|%d|%d|%d|%v", c.Thr, c.X.describe(), c.PWords, c.PLines, c.SWords, c.SynthN, c.SynthDrop, c.SynthTail)
-		o.Sample = map[string]interface{}{"threshold": c.Thr, "x": c.X.describe(), "prefix_words": c.PWords, "prefix_lines": dLine, "suffix_words": c.SWords, "matches_of_x": fmtRecs(canon(rx))}
+		o.FP = fmt.Sprintf("%v|%s|%d|%d|%d|%d|%d|%v", c.Thr, c.X.describe(), pw, c.PLines, c.SWords, c.SynthN, c.SynthDrop, c.SynthTail)
+		o.Sample = map[string]interface{}{"threshold": c.Thr, "x": c.X.describe(), "prefix_words": pw, "prefix_lines": dLine, "suffix_words": c.SWords, "matches_of_x": fmtRecs(canon(rx))}
 	}
 	return o
 }
